@@ -56,7 +56,7 @@ Advance(L, w, tag, ok) ==
            IF tag \in FirstFrom(L, w.pc + 1)
            THEN IF w.rep >= it.max THEN Rej("toomany", tag)
                 ELSE Advance(L, [w EXCEPT !.pc = @ + 1, !.rcnt = 0], tag, ok)
-           ELSE IF w.rep < it.min THEN Rej("missing", FirstMandatory(L, w.pc + 1))
+           ELSE IF w.rep < it.min THEN Rej("missingseq", FirstMandatory(L, w.pc + 1))
                 ELSE Advance(L, [pc |-> EndOf(L, w.pc) + 1, rep |-> 0, rcnt |-> 0], tag, ok)
       [] it.k = "LE" ->
            Advance(L, [pc |-> BeginOf(L, w.pc), rep |-> w.rep + 1, rcnt |-> 0], tag, ok)
@@ -70,7 +70,7 @@ Finish(L, w) ==
            ELSE Finish(L, [w EXCEPT !.pc = @ + 1, !.rcnt = 0])
       [] it.k = "LB" ->
            IF w.rep < it.min
-           THEN [res |-> "reject", kind |-> "missing", tag |-> FirstMandatory(L, w.pc + 1)]
+           THEN [res |-> "reject", kind |-> "missingseq", tag |-> FirstMandatory(L, w.pc + 1)]
            ELSE Finish(L, [pc |-> EndOf(L, w.pc) + 1, rep |-> 0, rcnt |-> 0])
       [] it.k = "LE" ->
            Finish(L, [pc |-> BeginOf(L, w.pc), rep |-> w.rep + 1, rcnt |-> 0])
